@@ -162,7 +162,54 @@ func genC08(tier string, rng *Rng) []Case {
 		}
 		out = append(out, genFreshHist(rng, force))
 	}
+	for i := 0; i < n/15; i++ {
+		out = append(out, genMulti304(rng))
+	}
 	return out
+}
+
+// genMulti304: a response whose header names repeat (two Link lines, Cache-Control split over two lines with the
+// lifetime on the first), stored, expired, confirmed by a 304 that repeats those lines (or some of them), read again,
+// and then let expire once more: every value must survive the merge of the 304, the lifetime included.
+func genMulti304(rng *Rng) Case {
+	g := &histGen{rng: rng}
+	L := int64(rng.Pick2([]int{5, 60}))
+	body := "multi-v1"
+	multi := []KV{{"Link", "</app.js>; rel=preload; as=script"}, {"Link", "</app.css>; rel=preload; as=style"}}
+	cc := []KV{{"Cache-Control", fmt.Sprintf("max-age=%d", L)}, {"Cache-Control", "public"}}
+	if rng.Chance(50, 100) {
+		cc = []KV{{"Cache-Control", "public"}, {"Cache-Control", fmt.Sprintf("max-age=%d", L)}}
+	}
+	extra := []KV{{"X-Tag", "one"}, {"X-Tag", "two"}, {"X-Tag", "three"}}
+	h200 := append(append(append([]KV{{"Content-Type", "text/plain"}, {"Content-Length", fmt.Sprint(len(body))}, {"Etag", "\"m1\""}}, cc...), multi...), extra...)
+	g.script(Behaviour{Status: 200, Hdrs: h200, Body: body})
+	g.req("GET", "/c/m")
+	g.adv(1)
+	g.req("GET", "/c/m")
+	g.adv(L + 5)
+	// the 304 repeats the lines: all of them, or only the Cache-Control ones, or Link in another order
+	h304 := append([]KV{{"Etag", "\"m1\""}}, cc...)
+	switch rng.Intn(3) {
+	case 0:
+		h304 = append(append(h304, multi...), extra...)
+	case 1:
+		h304 = append(h304, multi[1], multi[0])
+	}
+	g.script(Behaviour{Status: 304, Hdrs: h304})
+	g.req("GET", "/c/m")
+	g.adv(1)
+	g.req("GET", "/c/m")
+	if rng.Chance(50, 100) {
+		g.ops = append(g.ops, Op{Kind: "restart"})
+		g.req("GET", "/c/m")
+	}
+	// once more past the lifetime: the origin has a new version now
+	g.adv(L + 5)
+	g.script(Behaviour{Status: 200, Hdrs: []KV{{"Content-Type", "text/plain"}, {"Content-Length", "8"}, {"Cache-Control", "max-age=600"}, {"Etag", "\"m2\""}}, Body: "multi-v2"})
+	g.req("GET", "/c/m")
+	g.adv(1)
+	g.req("GET", "/c/m")
+	return mkCacheCase([]Rule{cacheRule()}, g.ops, nil)
 }
 
 func mkCacheCase(rules []Rule, ops []Op, suffix *string) Case {
@@ -279,6 +326,9 @@ func genC07Hist(tier string, rng *Rng) []Case {
 			}
 		}
 		out = append(out, mkCacheCase([]Rule{rule}, g.ops, suffix))
+	}
+	for i := 0; i < n/12; i++ {
+		out = append(out, genMulti304(rng))
 	}
 	return out
 }
